@@ -288,3 +288,82 @@ def head_sources(fn, e, depth=0, seen=None):
     else:
         out.add(k)
     return out
+
+
+def last_field(place):
+    for e in reversed(place["p"]):
+        if isinstance(e, dict) and "f" in e:
+            return e
+        if e == "deref":
+            continue
+        return None
+    return None
+
+
+def field_assigns(fn, name, of_substr=None, live_only=True):
+    """Assignments whose destination ends in field `name` (optionally of a type containing of_substr)."""
+    out = []
+    rng = sorted(fn.live) if live_only else range(fn.n)
+    for bi in rng:
+        for si, s in enumerate(fn.blocks[bi]["stmts"]):
+            if s["k"] != "assign" or not s["lhs"]["p"]:
+                continue
+            lf = s["lhs"]["p"][-1]
+            if isinstance(lf, dict) and lf.get("name") == name and (of_substr is None or of_substr in (lf.get("of") or "")):
+                out.append((bi, si, s))
+        t = fn.blocks[bi]["term"]
+        if t["k"] == "call" and t["dest"]["p"]:
+            lf = t["dest"]["p"][-1]
+            if isinstance(lf, dict) and lf.get("name") == name and (of_substr is None or of_substr in (lf.get("of") or "")):
+                out.append((bi, "term", t))
+    return out
+
+
+def field_borrows(fn, name, of_substr=None, mut_only=True):
+    out = []
+    for bi in sorted(fn.live):
+        for si, s in enumerate(fn.blocks[bi]["stmts"]):
+            if s["k"] != "assign":
+                continue
+            rv = s["rv"]
+            pl = rv.get("ref") or rv.get("rawptr")
+            if pl is None or not pl["p"]:
+                continue
+            if mut_only and not rv.get("mut"):
+                continue
+            lf = pl["p"][-1]
+            if isinstance(lf, dict) and lf.get("name") == name and (of_substr is None or of_substr in (lf.get("of") or "")):
+                out.append((bi, si, s))
+    return out
+
+
+def field_reads(fn, name, of_substr=None):
+    """Statements `x = copy/move <place ending in .name>`."""
+    out = []
+    for bi in sorted(fn.live):
+        for si, s in enumerate(fn.blocks[bi]["stmts"]):
+            if s["k"] != "assign":
+                continue
+            rv = s["rv"]
+            if "use" in rv:
+                p = op_place(rv["use"])
+                if p and p["p"]:
+                    lf = p["p"][-1]
+                    if isinstance(lf, dict) and lf.get("name") == name and (of_substr is None or of_substr in (lf.get("of") or "")):
+                        out.append((bi, si, s))
+    return out
+
+
+def is_diverging(fn, bb):
+    r = fn.reach_from(bb)
+    return not any(x in r for x in fn.returns)
+
+
+def ret_aggregates(fn):
+    """Assignments to _0 (the return place) as (bb, si, rvalue)."""
+    out = []
+    for bi in sorted(fn.live):
+        for si, s in enumerate(fn.blocks[bi]["stmts"]):
+            if s["k"] == "assign" and s["lhs"]["l"] == 0 and not s["lhs"]["p"]:
+                out.append((bi, si, s["rv"]))
+    return out
